@@ -120,7 +120,7 @@ def api_ops(mod):
     }
 
 
-def explore_api(ctx, ms, scheduler, n_threads, combos, max_pre, limit, traces):
+def explore_api(ctx, ms, scheduler, n_threads, combos, max_pre, limit, traces, warms=(False, True)):
     mod = cb.package()
     ops = api_ops(mod)
     alone = {}
@@ -130,7 +130,7 @@ def explore_api(ctx, ms, scheduler, n_threads, combos, max_pre, limit, traces):
         except Exception as ex:  # noqa: BLE001
             alone[name] = ("exc", ex)
     total = 0
-    for warm in (False, True):
+    for warm in warms:
         for combo in combos:
             def run_once(prefix, combo=combo, warm=warm):
                 xctx = cb.fresh_context(warm, rec=True)
@@ -397,6 +397,10 @@ def run(ctx):
         ctx.divergences.append({"kind": "markers-missing", "missing": ms_api.missing})
     scheduler_api = sched.Scheduler(ms_api, timeout=20.0)
     n = explore_api(ctx, ms_api, scheduler_api, 2, pairs, ctx.pick(2, 3), ctx.pick(40, 600), traces)
+    # a DEEPER pass over the same operation twice on a cold context (check-then-act races between two first uses need
+    # two well-placed switches): every schedule with up to two preemptions within the limit
+    deep = [("parse_noclass", "parse_noclass"), ("parse_noclass", "json_noclass"), ("parse_xsi", "parse_xsi")]
+    n += explore_api(ctx, ms_api, scheduler_api, 2, deep, 2, ctx.pick(450, 4000), traces, warms=(False,))
     triples = [("parse_xsi", "parse_noclass", "serialize"), ("parse_xsi", "find_derived", "json_noclass"),
                ("parse_noclass", "parse_noclass", "find_derived"), ("json_noclass", "find_unknown", "find_unknown")]
     n += explore_api(ctx, ms_api, scheduler_api, 3, triples, 2, ctx.pick(60, 1500), traces)
